@@ -51,6 +51,10 @@ def cases(tier, seed):
         car = sh.M(sh.F('Fa', [sh.R(0, 1, [sh.F(nm, [sh.R(1, 1, [sh.F('Bb')])])]), sh.R(0, 1, [sh.F('Dc')])]))
         yield ('SN', car)
         yield ('SN', (car[0], (('c1', ('REQUIRES', 'Dc', nm)),)))
+    from . import rt
+    for m in rt.collision_models():
+        if all(n.isidentifier() and n.isascii() for n in sh.names(m)):
+            yield ('SK', m)
     for t1 in cm.k1()[::5]:
         for t2 in cm.k1()[::5]:
             yield ('SK', cm.on_carrier([t1, t2]))
